@@ -98,6 +98,15 @@ theorem write_order_irrelevant (fmt : Path → String → String) (fs : FS) (mar
       rw [write_ok_deleted fmt fs c₁ marker hc p, write_ok_deleted fmt fs c₂ marker hc p, hk p]
     · rw [write_ok_count fmt fs c₁ marker hc, write_ok_count fmt fs c₂ marker hc, h.length_eq]
 
+/-- … and the write logs of two processing orders are permutations of each other (every file written at most once). -/
+theorem write_log_perm (fmt : Path → String → String) (fs : FS) (marker : Path)
+    (c₁ c₂ : List (Path × String)) (h : c₁ ~ c₂) (hnd : (keys c₁).Nodup) :
+    (write fmt fs c₁ marker).written ~ (write fmt fs c₂ marker).written := by
+  have hpk : keys c₁ ~ keys c₂ := by unfold keys; exact h.map _
+  have hnd2 : (keys c₂).Nodup := hpk.nodup_iff.mp hnd
+  exact (perm_ext_iff_of_nodup (write_written_nodup fmt fs c₁ marker hnd) (write_written_nodup fmt fs c₂ marker hnd2)).mpr
+    (write_order_irrelevant fmt fs marker c₁ c₂ h hnd).2.2.1
+
 /-! ## T1: census of `range`-over-map sites in the generator packages
 
 `Facts.ToolMaps.mapRangeSites` is regenerated from the source on every run (`file:function:count` for every function
